@@ -68,7 +68,11 @@ func c05Text(s *c07Sys) []string {
 
 // c05Explore enumerates all orders reachable through accepted instruction
 // moves in block bi and compares every order with the original.
-func c05Explore(r *eng.Run, s *c07Sys, bi int) *eng.Fail {
+func c05Explore(r *eng.Run, s *c07Sys, bi int) *eng.Fail { return c05ExplorePre(r, s, bi, nil) }
+
+// c05ExplorePre: the same search started after the block moves pre; bi is the block's ORIGINAL
+// position, the runs are compared with the original order on the unmoved code.
+func c05ExplorePre(r *eng.Run, s *c07Sys, bi int, pre []c07Op) *eng.Fail {
 	base := make([]*emu.Outcome, len(c05Inits))
 	for i := range c05Inits {
 		o, err := c05RunOrder(s, nil, bi, i)
@@ -83,8 +87,22 @@ func c05Explore(r *eng.Run, s *c07Sys, bi int) *eng.Fail {
 		return nil
 	}
 	_ = c0
+	origBegin := m0.begins[bi]
+	ci := bi // current position of the block
+	if len(pre) > 0 {
+		_, mp, err := s.build(pre)
+		if err != nil {
+			return nil // a refused block move: nothing to explore
+		}
+		for i, b := range mp.begins {
+			if b == origBegin {
+				ci = i
+			}
+		}
+		m0 = mp
+	}
 	seen := map[string]bool{m0.key(): true}
-	queue := [][]c07Op{nil}
+	queue := [][]c07Op{append([]c07Op{}, pre...)}
 	r.State(1)
 	for len(queue) > 0 {
 		path := queue[0]
@@ -93,20 +111,20 @@ func c05Explore(r *eng.Run, s *c07Sys, bi int) *eng.Fail {
 		if err != nil {
 			return &eng.Fail{Sig: "replay diverged", What: err.Error(), Case: c05Case{Segs: s.segs, Entry: s.entry, Path: path}}
 		}
-		n := len(m.blocks[bi])
+		n := len(m.blocks[ci])
 		for f := 0; f < n; f++ {
 			for t := 0; t < n; t++ {
 				if f == t {
 					continue
 				}
-				if err := c.Index(bi).Move(f, t); err != nil {
+				if err := c.Index(ci).Move(f, t); err != nil {
 					continue
 				}
 				r.Trans(1)
-				op := c07Op{Kind: "ins", Block: bi, From: f, To: t}
+				op := c07Op{Kind: "ins", Block: ci, From: f, To: t}
 				np := append(append([]c07Op{}, path...), op)
 				mm := m.clone()
-				rotate(mm.blocks[bi], f, t)
+				rotate(mm.blocks[ci], f, t)
 				k := mm.key()
 				if !seen[k] {
 					seen[k] = true
@@ -264,7 +282,7 @@ func c05Codes(r *eng.Run) []*c07Sys {
 func init() {
 	checks["C05"] = eng.Check{
 		Hist:        true,
-		Rule:        "every block of <=3 (thorough 4) instructions over an 18-word alphabet chosen around the dependency rules (three writers of x1, reader, read-modify-write, sd/ld on one base with and without a shared register, a partially overlapping sb, fence, ecall, csrrw, amoadd.w, the pseudo-jumps jal x5,+4 and beq x0,x0,+4, auipc), optionally ended by a real terminating beq/jal, followed by nops, and every block of 2 (quick: a third of those of 3) SYNTHETIC instructions from the C06 alphabet (several stores into one / two spaces, several register writes, load+store of one space; synthetic registers hold one of three nearby addresses so that accesses alias in some initial states): explicit-state search over ALL orders reachable through accepted Block.Move calls (state = order; successor = fresh real code + replay + move); every reachable order is run in the real emulator from 3 initial states (aliasing and non-aliasing addresses, all registers preloaded) until pc leaves the block or a horizon, and compared (registers, writable-memory bytes, final pc, termination) with the run of the original order. A second pass walks ONE long-lived instance through a depth-2 (thorough 3) tour of accepted, rejected and undo moves and runs the emulator comparison in every node. Block moves on the 4 multi-block codes of C07: every pair of Code.Move calls leaves each instruction's address, text and single-step behaviour unchanged. Non-trivial = block with more than one reachable order.",
+		Rule:        "every block of <=3 (thorough 4) instructions over an 18-word alphabet chosen around the dependency rules (three writers of x1, reader, read-modify-write, sd/ld on one base with and without a shared register, a partially overlapping sb, fence, ecall, csrrw, amoadd.w, the pseudo-jumps jal x5,+4 and beq x0,x0,+4, auipc), optionally ended by a real terminating beq/jal, followed by nops, and every block of 2 (quick: a third of those of 3) SYNTHETIC instructions from the C06 alphabet (several stores into one / two spaces, several register writes, load+store of one space; synthetic registers hold one of three nearby addresses so that accesses alias in some initial states): explicit-state search over ALL orders reachable through accepted Block.Move calls (state = order; successor = fresh real code + replay + move); every reachable order is run in the real emulator from 3 initial states (aliasing and non-aliasing addresses, all registers preloaded) until pc leaves the block or a horizon, and compared (registers, writable-memory bytes, final pc, termination) with the run of the original order. A second pass walks ONE long-lived instance through a depth-2 (thorough 3) tour of accepted, rejected and undo moves and runs the emulator comparison in every node. Block moves on the 4 multi-block codes of C07: every pair of Code.Move calls leaves each instruction's address, text and single-step behaviour unchanged, and after every one or two block moves the order search of every block is repeated (instruction moves after block moves). Non-trivial = block with more than one reachable order.",
 		Assumptions: []string{"differential oracle: original order vs reordered order on the same emulator", "all registers are preloaded so the known narrow-first-read finding of C03 cannot influence the comparison"},
 		Run: func(r *eng.Run) {
 			codes := c05Codes(r)
@@ -317,6 +335,35 @@ func init() {
 				if f != nil {
 					r.Report(f)
 				}
+				// instruction moves AFTER block moves: for every block and every one or two block
+				// moves before it, every order reachable through accepted moves behaves like the
+				// original order
+				c0, _, err := s.build(nil)
+				if err != nil {
+					continue
+				}
+				n := c0.Len()
+				var pres [][]c07Op
+				for f := 0; f < n; f++ {
+					for t := 0; t < n; t++ {
+						if f == t {
+							continue
+						}
+						pres = append(pres, []c07Op{{Kind: "block", From: f, To: t}})
+						for f2 := 0; f2 < n; f2++ {
+							pres = append(pres, []c07Op{{Kind: "block", From: f, To: t}, {Kind: "block", From: f2, To: (f2 + 1) % n}})
+						}
+					}
+				}
+				for bi := 0; bi < n; bi++ {
+					for _, pre := range pres {
+						if f := c05ExplorePre(r, s, bi, pre); f != nil {
+							r.Report(f)
+							r.Outcome(f.Sig)
+						}
+						r.Eval(1)
+					}
+				}
 			}
 			r.Sample(c05Case{Segs: codes[len(codes)/2].segs, Entry: 0x1000, Text: c05Text(codes[len(codes)/2]), Path: []c07Op{{Kind: "ins", From: 0, To: 1}}})
 		},
@@ -368,7 +415,11 @@ func init() {
 			if err != nil {
 				return nil
 			}
-			if len(c.Path) > 0 && c.Path[0].Kind == "block" {
+			onlyBlocks := len(c.Path) > 0
+			for _, op := range c.Path {
+				onlyBlocks = onlyBlocks && op.Kind == "block"
+			}
+			if onlyBlocks {
 				return c05BlockMoves(r, s)
 			}
 			a, err1 := c05RunOrder(s, nil, c.Block, c.Init)
